@@ -1,5 +1,5 @@
 SPECIFICATION Spec
 CONSTANTS MaxLen = 3
 Depth = 32
-INVARIANTS FoldInv RenderDefinedInv CelOrderInv Export
+INVARIANTS FoldInv RenderDefinedInv CelOrderInv RoundTripInv
 CHECK_DEADLOCK FALSE
